@@ -492,6 +492,8 @@ func checkC18(c *Ctx) {
 		// a cgo file: "C" is an import like any other to NewPackage (the importer is asked, the name C is declared
 		// in the file scope or the failure is reported)
 		"cgo": {"a.go": []byte("package p\n\n// #include <stdio.h>\nimport \"C\"\n\nimport \"fmt\"\n\nfunc F() string { C.puts(C.CString(\"x\")); return fmt.Sprint(C.int(1)) }\n"), "b.go": []byte("package p\n\nvar Y = F()\n")},
+		// package-level declarations that shadow names of the universe scope (legal: no redeclaration)
+		"shadow-predeclared": {"a.go": []byte("package p\n\ntype error interface{ Error() string }\n\nfunc len(x string) int { return 0 }\n\nvar X = len(missing)\n"), "b.go": []byte("package p\n\nvar print = 1\n\nvar Y error\n\nvar X = print\n")},
 		"cycle":              {"a.go": []byte("package p\n\ntype A struct{ b *B }\n\nvar X = Y\n"), "b.go": []byte("package p\n\ntype B struct{ a *A }\n\nvar Y = X\n\nconst (\n\tC0 = iota\n\tC1\n)\n")},
 	}
 	var keys []string
